@@ -577,7 +577,8 @@ def _run(ctx):
     nsig = 1 + tape.weighted([5, 3, 1], "world.nsig")
     specs = []
     for i in range(nsig):
-        spec = gen.gen_signal_spec(tape, label=f"w{i}")
+        spec = gen.gen_signal_spec(tape, label=f"w{i}", maxlen=64 if ctx.tier == "quick" else 192,
+                                   big=ctx.tier != "quick")
         z, owner = gen.build_numpy(pb, spec)
         backing = "numpy"
         if tape.chance(1, 6, f"w{i}.dask"):
